@@ -9,3 +9,10 @@ import HealSparse.Props.C02
 #print axioms HS.C02.fracdet_covered
 #print axioms HS.C02.fracdet_cov_eq_coverageCounts
 #print axioms HS.C02.cache_coherent
+#print axioms HS.C02.singleCovpix_spec
+#print axioms HS.C02.reachable_cache_fresh
+#print axioms HS.C02.reachable_view_cache_empty
+#print axioms HS.C02.reachable_get_cache_fresh
+#print axioms HS.C02.reachable_nvalid
+#print axioms HS.C02.reachable_nvalid'
+#print axioms HS.C02.reachable_nvalid_count
